@@ -61,6 +61,7 @@ func cmdRun(args []string) int {
 	unwind := fs.Int("unwind", 80, "")
 	timeout := fs.Int("timeout", 60000, "per-query ms")
 	jsonOut := fs.String("json", "", "write report json")
+	cutUnwind := fs.Bool("cutunwind", false, "loop bound exceeded = outside the bound")
 	fs.Parse(args)
 	i := strings.LastIndex(*harness, ".")
 	w, err := loadWorld([]string{(*harness)[:i]})
@@ -68,7 +69,7 @@ func cmdRun(args []string) int {
 		fmt.Fprintln(os.Stderr, "load:", err)
 		return 2
 	}
-	cfg := &sym.RunConfig{Harness: *harness, Props: map[string]bool{}, Params: map[string]int{}, Workers: *workers, Unwind: *unwind, Solver: sym.SolverKind(*solver), TimeoutMs: *timeout}
+	cfg := &sym.RunConfig{Harness: *harness, Props: map[string]bool{}, Params: map[string]int{}, Workers: *workers, Unwind: *unwind, Solver: sym.SolverKind(*solver), TimeoutMs: *timeout, CutOnUnwind: *cutUnwind}
 	switch *domain {
 	case "string":
 		cfg.Domain = sym.DomString
